@@ -4,6 +4,7 @@ import (
 	"bytes"
 	"context"
 	"fmt"
+	"github.com/ipni/go-libipni/announce"
 	"sort"
 	"time"
 
@@ -63,6 +64,23 @@ func runC10P(r *simkit.Run, c Cfg) {
 	var remote [][]byte
 	ctx, cancel := context.WithCancel(context.Background())
 	defer cancel()
+	// beside the raw subscription, the library's own receiver on the same
+	// topic: what it hands to its consumer is what "a receiver decodes"
+	rc, err := announce.NewReceiver(pw.recv, "", announce.WithTopic(rtopic))
+	if err != nil {
+		r.Violate("c10.setup", "NewReceiver: %v", err)
+		return
+	}
+	var delivered []announce.Announce
+	go func() {
+		for {
+			a, err := rc.Next(ctx)
+			if err != nil {
+				return
+			}
+			delivered = append(delivered, a)
+		}
+	}()
 	go func() {
 		for {
 			m, err := sub.Next(ctx)
@@ -108,6 +126,12 @@ func runC10P(r *simkit.Run, c Cfg) {
 			na := tp.Choose(4, "naddr")
 			for j := 0; j < na; j++ {
 				m.Addrs = append(m.Addrs, must(multiaddr.NewMultiaddr(c10AllAddrs()[tp.Choose(len(c10AllAddrs()), "addr")])).Bytes())
+			}
+			if na > 0 && tp.Chance(1, 8, "unknownOnly") {
+				// nothing but addresses of protocols this build does not
+				// know: skipped one by one, the message stays
+				m.Addrs = [][]byte{{0xff, 0xff, 0x03, 1, 2}, {0xfe, 0xff, 0x03, 9}}[:1+tp.Choose(2, "unknownOnly.n")]
+				r.Probe("gossip-message-with-unknown-protocol-addresses-only")
 			}
 			emptyAddr := false
 			if tp.Chance(1, 10, "emptyAddr") {
@@ -194,10 +218,35 @@ func runC10P(r *simkit.Run, c Cfg) {
 			}
 		}
 	}
+	// the receiver handed each announcement to its consumer, with the
+	// addresses it could read (unknown protocols skipped)
+	for _, m := range sent {
+		var got *announce.Announce
+		for i := range delivered {
+			if delivered[i].Cid == m.Cid {
+				got = &delivered[i]
+			}
+		}
+		if got == nil {
+			r.Violate("c10.wire", "the announcement of %s, sent over gossip, was not handed to the consumer of a receiver on the topic (%d addresses on the wire)", m.Cid, len(m.Addrs))
+			break
+		}
+		wantAddrs, _ := m.GetAddrs()
+		if len(got.Addrs) != len(wantAddrs) {
+			r.Violate("c10.wire", "the receiver delivered %d addresses for an announcement sent with %d readable ones", len(got.Addrs), len(wantAddrs))
+			break
+		}
+		for i := range wantAddrs {
+			if !got.Addrs[i].Equal(wantAddrs[i]) {
+				r.Violate("c10.wire", "the receiver delivered address %s, sent %s", got.Addrs[i], wantAddrs[i])
+			}
+		}
+	}
 	if len(sent) >= 2 {
 		r.Probe("nontrivial")
 	}
 	r.NoteEnabled(2)
+	rc.Close()
 	snd.Close()
 	sub.Cancel()
 	rtopic.Close()
